@@ -1122,6 +1122,7 @@ def generic_rules(prop, index, rep):
     with rep.section(rid2):
         nl = ignored_item_rule(index, rep, rid2, mods)
         ng = guard_object_rule(index, rep, rid2, mods)
+        ng += stale_snapshot_rule(index, rep, rid2, mods)
         rep.ob(rid2, "src/dendropy", "%d nested loops and %d None-guards in the property's modules examined" % (nl, ng), True, nontrivial=nl + ng > 0)
 
 
@@ -1339,4 +1340,49 @@ def swallowed_error_rule(index, rep, rid, modules):
                         hit = caught & anc
                         rep.check(not hit, rid, f.qualname, "`except %s: pass` swallows %s" % ("/".join(sorted(caught)), nm), fn_where(f, h), "",
                                   "%s guards a block with `except %s` whose body only passes, and that block can raise the library's own %s (in %s), which is a %s: the error a caller is documented to get - e.g. the refusal to delete the seed node - is silently dropped and the operation carries on as if nothing had happened (a filter that rejects every leaf then never terminates)" % (f.qualname, "/".join(sorted(caught)), nm, ctx.qualname, "/".join(sorted(hit))))
+    return n
+
+
+def stale_snapshot_rule(index, rep, rid, modules):
+    """`x = self.a` ... `self.a = <something else>` ... use of `x`: after the attribute has been rebound the local still
+    names the OLD object; reading it (other than to put it back) uses the wrong one of two similar things."""
+    n = 0
+    for m in modules:
+        for f in index.functions_in_module(m):
+            snaps = [a for a in walk_no_nested(f.node) if isinstance(a, ast.Assign) and len(a.targets) == 1 and isinstance(a.targets[0], ast.Name)
+                     and isinstance(a.value, ast.Attribute) and isinstance(a.value.value, ast.Name) and a.value.value.id == "self"]
+            if not snaps:
+                continue
+            g = None
+            for a in snaps:
+                x, attr = a.targets[0].id, a.value.attr
+                rebinds = [b for b in walk_no_nested(f.node) if isinstance(b, ast.Assign) and any(isinstance(t, ast.Attribute) and t.attr == attr and isinstance(t.value, ast.Name) and t.value.id == "self" for t in b.targets)
+                           and not (isinstance(b.value, ast.Name) and b.value.id == x) and not isinstance(b.value, ast.Constant)]      # clearing (= None) keeps the old value on purpose
+                if not rebinds:
+                    continue
+                g = g or cfg_of(f)
+                n += 1
+                redefs = {id(s_) for s_ in walk_no_nested(f.node) if isinstance(s_, (ast.Assign, ast.AugAssign, ast.For)) and any(isinstance(t, ast.Name) and t.id == x and isinstance(t.ctx, ast.Store) for t in ast.walk(s_.targets[0] if isinstance(s_, ast.Assign) else s_.target))}
+                snap_nodes = {nd.id for nd in g.nodes_of_stmt(a)}
+                for b in rebinds:
+                    starts = [t for nd in g.nodes_of_stmt(b) for lab, t in nd.succ if lab != "e"]
+                    # can the snapshot statement run before this rebinding at all?
+                    if not any(g.can_reach(sn, lambda y, b=b: y.stmt is b, follow_exc=False) for sn in g.nodes_of_stmt(a)):
+                        continue
+                    reach = g.reach(starts, avoid=lambda y: y.stmt is not None and id(y.stmt) in redefs and y.stmt is not b, follow_exc=False)
+                    bad = None
+                    for nd in reach:
+                        if nd.stmt is b or nd.id in snap_nodes:
+                            continue
+                        for e in node_exprs(nd):
+                            for z in walk_no_nested(e):
+                                if isinstance(z, ast.Name) and z.id == x and isinstance(z.ctx, ast.Load):
+                                    # putting the old value back is the save/restore idiom
+                                    if isinstance(nd.ast, ast.Assign) and isinstance(nd.ast.value, ast.Name) and nd.ast.value.id == x and any(isinstance(t, ast.Attribute) and t.attr == attr for t in nd.ast.targets):
+                                        continue
+                                    if isinstance(nd.ast, ast.Return) and isinstance(nd.ast.value, ast.Name):
+                                        continue        # replace-and-return-the-previous
+                                    bad = bad or nd
+                    rep.check(bad is None, rid, f.qualname, "`%s` (snapshot of self.%s) read after self.%s was rebound" % ("$snap", attr, attr), fn_where(f, bad.stmt if bad else b), "",
+                              "%s takes `%s = self.%s`, later rebinds self.%s (`%s`) and afterwards still reads `%s` (`%s`): on the paths where the attribute was replaced - a root unifurcation suppressed, a new seed node installed - the local names the discarded object, so what is computed from it (the tree's leaf set, the rooting) belongs to the old one" % (f.qualname, x, attr, attr, norm_stmt(b)[:50], x, norm_stmt(bad.stmt)[:60] if bad else ""))
     return n
